@@ -8,6 +8,7 @@
 -/
 import PegtlVerif.Lemmas.Rewind
 import PegtlVerif.Lemmas.Twin
+import PegtlVerif.Lemmas.TwinConv
 
 namespace Pegtl.C18
 
@@ -94,6 +95,36 @@ theorem C18_twin (cx : Ctx) (n i : Nat) (a : AMode) (m : RMode) (env : Env) (st 
     run cx n i a m env st = some r ∧ runM .off cx n i a m env st = some r :=
   ⟨by rw [← runM_raise]; exact runM_stuck_le .raise cx n i a m env st r h, runM_stuck_le .off cx n i a m env st r h⟩
 
+/-- **…and "within the limit" can be read off the trace.**  A guarded run in whose trace no `raise` of a `limit_depth`
+    pseudo-rule occurs (`cleanB`: not at top level, not swallowed by a `try_catch`, not inside a predicate) never reached a
+    depth limit: it is the `stuck` run, hence also the unguarded run.  So an input parses differently with and without the
+    guard only if the guard visibly fired.  (Every combinator's trace contains the traces of the sub-results it used —
+    `Lemmas/TwinConv.lean`, `body_clean`.) -/
+theorem C18_twin_trace (cx : Ctx) (n i : Nat) (a : AMode) (m : RMode) (env : Env) (st : St) (r : Ret)
+    (h : run cx n i a m env st = some r) (hc : cleanB r.raw = true) :
+    runM .stuck cx n i a m env st = some r ∧ runM .off cx n i a m env st = some r := by
+  have hs : runM .stuck cx n i a m env st = some r := run_clean cx n i a m env st r (filt_some h hc)
+  exact ⟨hs, runM_stuck_le .off cx n i a m env st r hs⟩
+
+/-- Contrapositive: if the unguarded run does not return what the guarded run returned, a `limit_depth` raise is in the
+    guarded run's trace. -/
+theorem C18_guard_visible (cx : Ctx) (n i : Nat) (a : AMode) (m : RMode) (env : Env) (st : St) (r : Ret)
+    (h : run cx n i a m env st = some r) (hd : runM .off cx n i a m env st ≠ some r) :
+    ∃ e ∈ r.raw, e.isLdRaise = true := by
+  by_cases hc : cleanB r.raw = true
+  · exact absurd (C18_twin_trace cx n i a m env st r h hc).2 hd
+  · have : (r.raw.any fun e => e.isLdRaise) = true := by
+      cases hany : r.raw.any (fun e => e.isLdRaise) with
+      | true => rfl
+      | false =>
+        exfalso; apply hc
+        simp only [List.any_eq_false] at hany
+        simp only [cleanB, List.all_eq_true, Bool.not_eq_true']
+        intro e he
+        simpa using hany e he
+    simp only [List.any_eq_true] at this
+    exact this
+
 /-- The `stuck` reading stops exactly where the guard fires: at a guarded rule entered when the depth is already `N`. -/
 theorem C18_stuck_exact (cx : Ctx) (core : St → Out) (n : Nat) (st : St) :
     limitDepthCallM .stuck cx core n st = none ↔ (n < st.depth + 1 ∨ core { st with depth := st.depth + 1 } = none) := by
@@ -141,6 +172,11 @@ example : ∃ r, runM .stuck { g := exG, inp := #[40, 40, 41, 41] } 20 0 .action
 example : runM .stuck { g := exG, inp := #[40, 40, 40, 41, 41, 41] } 20 0 .action .required {} (Ctx.start { g := exG, inp := #[40, 40, 40, 41, 41, 41] }) = none ∧
     (∃ r, runM .off { g := exG, inp := #[40, 40, 40, 41, 41, 41] } 20 0 .action .required {} (Ctx.start { g := exG, inp := #[40, 40, 40, 41, 41, 41] }) = some r ∧
       r.res = .ok ∧ r.st.cur.pos = 6 ∧ r.st.depth = 0) := by decide +kernel
+
+/-- the hypothesis of `C18_twin_trace` read off the two traces: clean on "(())", not clean on "((()))" -/
+example : (parseTop { g := exG, inp := #[40, 40, 41, 41] } 20 0 .action .required).map (fun r => cleanB r.raw) = some true ∧
+    (parseTop { g := exG, inp := #[40, 40, 40, 41, 41, 41] } 20 0 .action .required).map (fun r => cleanB r.raw) = some false := by
+  decide +kernel
 
 /-- a greedy `star< any >` under `limit_bytes< 2 >` started at offset 1 of a 5-byte input stops at the
     lowered end and raises; the end is restored -/
